@@ -49,6 +49,45 @@ def sweep(tier, seed):
     # --- test results, overall and by labels
     lab_opts = [None, 0, 1]
     res_opts = [(ok, x, y) for ok in (True, False) for x in lab_opts for y in lab_opts]
+    # the same comparison evaluated by several tasks: results sharing a test name are still counted one by one
+    for names, verdicts in ((('t', 't', 't'), (True, True, False)), (('t', 't', 'u', 'u', 'u'), (True, False, True, True, True)), (('a', 'a'), (True, True))):
+        for lab_of in (lambda i: {'x': 'x0'}, lambda i: {'x': f'x{i % 2}'}, lambda i: ({'x': 'x0'} if i else {})):
+            n += 1
+            rs = [(Tst(nm, ok, lab_of(i)).evaluate(), ok, lab_of(i)) for i, (nm, ok) in enumerate(zip(names, verdicts))]
+            tr = [(f'task{i}', {'result': [r]}) for i, (r, _, _) in enumerate(rs)]
+            inp = {'results_sharing_a_test_name': [[nm, ok, lab_of(i)] for i, (nm, ok) in enumerate(zip(names, verdicts))]}
+            st = TestStatsTests(name='s', task_results=tr).evaluate()
+            cnt = {o.name: len(v) for o, v in st.classify.items() if v}
+            want_cnt = {k: v for k, v in (('SUCCESS', sum(verdicts)), ('FAILURE', len(verdicts) - sum(verdicts))) if v}
+            if cnt != want_cnt:
+                fails.append({'input': inp, 'observed': f'classify counts {cnt}', 'expected': f'{want_cnt}: every evaluated result is listed once'})
+                continue
+            try:
+                bl = TestStatsTestsByLabels(name='b', task_results=tr, by_labels=('x',)).evaluate()
+            except TestStatsTestsByLabelsException:
+                continue
+            carrying = [(ok, l) for _, ok, l in rs if 'x' in l]
+            tot = sum(d['total'] for d in bl.classify)
+            bad = None
+            if tot != len(carrying) or sum(d['OK'] for d in bl.classify) != sum(ok for ok, _ in carrying):
+                bad = f'by-label totals {[(d["labels"], d["OK"], d["KO"], d["total"]) for d in bl.classify]} for {len(carrying)} results carrying the label'
+            elif bl.nb_missing_labels() != len(rs) - len(carrying):
+                bad = f'nb_missing_labels = {bl.nb_missing_labels()}, expected {len(rs) - len(carrying)}'
+            if bad:
+                fails.append({'input': inp, 'observed': bad, 'expected': 'successes + failures = number of results carrying the label; the others are counted as missing'})
+    # looking at the list of a status that did not occur does not change the verdict (classify is a defaultdict: reading inserts an empty list)
+    for verdicts in ((True, True), (True, False), ()):
+        n += 1
+        rs = [Tst(f't{i}', ok, {'x': 'x0'}).evaluate() for i, ok in enumerate(verdicts)]
+        st = TestStatsTests(name='s', task_results=[('task0', {'result': rs})]).evaluate()
+        sk = TestStatsTasks(name='k', task_results=[(f'task{i}', {'status': TaskStatus.DONE if ok else TaskStatus.FAILED}) for i, ok in enumerate(verdicts)]).evaluate()
+        for res, enum_, what in ((st, TestOutcome, 'tests'), (sk, TaskStatus, 'tasks')):
+            before = bool(res)
+            for member in enum_:
+                _ = res.classify[member]
+            if bool(res) != before or before != all(verdicts):
+                fails.append({'input': {'summary_of': what, 'verdicts': list(verdicts), 'then': 'classify[status] read for every status'},
+                              'observed': f'verdict {before} before and {bool(res)} after looking at the lists', 'expected': f'{all(verdicts)} both times'})
     # reserved label names used as ordinary labels must not disturb the classification by verdict
     reserved = [{'_result': 'whatever'}, {'_result': 0}, {'_test_name': 'n'}, {'_result': 1, '_test_name': 'n'}]
     selections = [('x',), ('y',), ('x', 'y'), ('y', 'x')]
@@ -138,7 +177,7 @@ def sweep(tier, seed):
                 fails.append({'input': {'reserved_label': repr(extra), 'verdicts': [ok1, ok2]}, 'observed': f'{bl.classify}, bool = {bool(bl)}', 'expected': repr(want)})
     return {'name': 'diagnostic-statistics-native', 'evaluations': n, 'distinct': n, 'failures': fails[:8], 'exhaustive': True,
             'bound': f'all task-status lists of length <= {nmax}; all lists of <= {2 if tier == "quick" else 3} test results with verdict in {{T, F}} and labels x, y in '
-                     '{absent, 0, 1}, split over 1 or 2 tasks, with / without a task lacking results; label selections (x), (y), (x, y), (y, x); results carrying the reserved label names _result / _test_name',
+                     '{absent, 0, 1}, split over 1 or 2 tasks, with / without a task lacking results; label selections (x), (y), (x, y), (y, x); results carrying the reserved label names _result / _test_name; results sharing a test name across tasks (9 cases); verdict re-read after looking at classify[status] for every status',
             'samples': [{'results': [[True, {'x': 'x0'}], [False, {'x': 'x0', 'y': 'y1'}]], 'by_labels': ['x']}]}
 
 
